@@ -54,6 +54,7 @@ pub enum ErrorCode {
 
 impl ErrorCode {
     /// Returns the integer representation (code) of the error.
+    #[cfg_attr(kani, kani::ensures(|r: &VarInt| r.into_inner() == crate::verif_kani::contracts::error_code_registry(self)))]
     pub fn to_code(self) -> VarInt {
         match self {
             ErrorCode::Datagram => h3_error_codes::H3_DATAGRAM_ERROR,
